@@ -64,6 +64,16 @@ func Wrap(db walletdb.DB) *DB {
 // Writes is the number of mutating calls attempted in the last transaction.
 func (d *DB) Writes() int { return len(d.Calls) }
 
+// FailedCall returns the call that was made to fail in the last transaction.
+func (d *DB) FailedCall() *Call {
+	for i := range d.Calls {
+		if d.Calls[i].Failed {
+			return &d.Calls[i]
+		}
+	}
+	return nil
+}
+
 func (d *DB) reset() {
 	d.Calls = nil
 	d.Fired = false
